@@ -179,8 +179,59 @@ _installed = False
 _orig = {}
 
 
-def audit():
-    """AST-scan the SDK sources: every import of a synchronisation/clock module must be covered by REBIND."""
+def _sdk_modules():
+    """import every module of the SDK package (so that a primitive imported by any of them is seen)"""
+    root = os.path.join(REPO, "src", SDK)
+    mods = {}
+    for dirpath, _, files in os.walk(root):
+        for fn in sorted(files):
+            if not fn.endswith(".py"):
+                continue
+            rel = os.path.relpath(os.path.join(dirpath, fn), root)[:-3].replace(os.sep, ".")
+            if rel.endswith("__init__"):
+                rel = rel[:-len(".__init__")] if rel != "__init__" else ""
+            name = SDK + ("." + rel if rel else "")
+            try:
+                mods[rel] = importlib.import_module(name)
+            except Exception as e:  # noqa: BLE001
+                raise InstallError(f"cannot import {name}: {e!r}") from e
+    return mods
+
+
+def _generic_map(fut):
+    """real synchronisation / clock object -> shim, by identity: a module of the SDK that imports one of these under any
+    name is rebound without having to be listed in REBIND"""
+    import concurrent.futures as cf
+    m = {
+        id(_real_threading): SHIM_THREADING, id(_real_queue): SHIM_QUEUE, id(_real_time): SHIM_TIME,
+        id(_real_threading.Lock): ds.Lock, id(_real_threading.RLock): ds.RLock, id(_real_threading.Event): ds.Event,
+        id(_real_threading.Condition): ds.Condition, id(_real_threading.Semaphore): ds.Semaphore,
+        id(_real_threading.BoundedSemaphore): ds.BoundedSemaphore, id(_real_threading.Thread): ds.Thread,
+        id(_real_threading.current_thread): ds.current_thread, id(_real_threading.get_ident): ds.get_ident,
+        id(_real_queue.Queue): ds.Queue, id(_real_queue.SimpleQueue): ds.SimpleQueue,
+        id(_real_time.time): ds.vtime, id(_real_time.monotonic): ds.vmonotonic, id(_real_time.perf_counter): ds.vmonotonic,
+        id(_real_time.sleep): ds.vsleep,
+        id(cf.ThreadPoolExecutor): fut["thread"].ThreadPoolExecutor, id(cf.Future): fut["_base"].Future,
+        id(cf.wait): fut["_base"].wait, id(cf.as_completed): fut["_base"].as_completed,
+    }
+    return m
+
+
+def _shim_values(fut):
+    vals = [SHIM_THREADING, SHIM_QUEUE, SHIM_TIME, SHIM_DATETIME, vdatetime, _real_queue.Empty, _real_queue.Full]
+    vals += list(_generic_map(fut).values())
+    return {id(v) for v in vals}
+
+
+# imports of clock / synchronisation modules that are harmless without a shim: (module, name)
+_HARMLESS = {("serdes", "date"), ("serdes", "datetime"), ("config", "Future")}
+# names of the datetime module that are pure values / types (no clock access)
+_PURE_DATETIME = {"timedelta", "timezone", "UTC", "date", "tzinfo"}
+
+
+def audit(mods=None, shim_ids=None):
+    """AST-scan the SDK sources: every import of a synchronisation / clock module must, after rebinding, resolve to a shim
+    object (or be listed as harmless).  Without `mods` only the static REBIND table is consulted."""
     root = os.path.join(REPO, "src", SDK)
     problems = []
     for dirpath, _, files in os.walk(root):
@@ -189,6 +240,8 @@ def audit():
                 continue
             path = os.path.join(dirpath, fn)
             rel = os.path.relpath(path, root)[:-3].replace(os.sep, ".")
+            if rel.endswith("__init__"):
+                rel = rel[:-len(".__init__")] if rel != "__init__" else ""
             tree = ast.parse(open(path).read())
             in_tc = set()
             for node in ast.walk(tree):
@@ -202,22 +255,22 @@ def audit():
                 if isinstance(node, ast.Import):
                     for a in node.names:
                         if a.name.split(".")[0] in _SYNC_MODULES or a.name in _SYNC_MODULES:
-                            names.append(a.asname or a.name.split(".")[0])
+                            names.append((a.asname or a.name.split(".")[0], a.name))
                 elif isinstance(node, ast.ImportFrom) and node.level == 0 and node.module:
                     if node.module in _SYNC_MODULES or node.module.split(".")[0] in _SYNC_MODULES:
-                        if node.module.startswith(SDK):
-                            continue
                         for a in node.names:
-                            names.append(a.asname or a.name)
-                for n in names:
-                    cov = REBIND.get(rel, {})
-                    if n not in cov:
-                        # datetime imported for types/values only is harmless when it never calls now(); flag anyway
-                        problems.append(f"{rel}: imports '{n}' not covered by shims")
-    # known-harmless: serdes uses datetime/date classes for isinstance and parsing only
-    harmless = {"serdes: imports 'date' not covered by shims", "serdes: imports 'datetime' not covered by shims",
-                "config: imports 'Future' not covered by shims"}
-    problems = [p for p in problems if p not in harmless]
+                            if node.module == "datetime" and a.name in _PURE_DATETIME:
+                                continue
+                            names.append((a.asname or a.name, node.module + "." + a.name))
+                for n, what in names:
+                    if (rel, n) in _HARMLESS:
+                        continue
+                    if mods is not None and rel in mods and shim_ids is not None:
+                        if id(getattr(mods[rel], n, None)) in shim_ids:
+                            continue
+                    elif n in REBIND.get(rel, {}):
+                        continue
+                    problems.append(f"{rel}: imports '{n}' ({what}) not covered by shims")
     return problems
 
 
@@ -225,24 +278,17 @@ def install(check_audit=True):
     """Idempotent. Returns the dict of SDK modules."""
     global _installed
     _ensure_repo_on_path()
-    mods = {}
-    for rel in list(REBIND) + ["context", "logger", "serdes", "config", "retries", "waits", "operation.step",
-                               "operation.child", "operation.wait", "operation.invoke", "operation.callback",
-                               "operation.wait_for_condition", "operation.map", "operation.parallel", "identifier",
-                               "types"]:
-        mods[rel] = importlib.import_module(f"{SDK}.{rel}")
+    mods = _sdk_modules()
     if _installed:
         return mods
     src_file = mods["state"].__file__
     if not os.path.abspath(src_file).startswith(os.path.abspath(os.path.join(REPO, "src"))):
         raise InstallError(f"SDK imported from {src_file}, expected under {REPO}/src")
-    if check_audit:
-        probs = audit()
-        if probs:
-            raise InstallError("shim audit failed: " + "; ".join(probs))
     fut = build_futures()
     shim = {"threading": SHIM_THREADING, "queue": SHIM_QUEUE, "time": SHIM_TIME, "datetime": SHIM_DATETIME,
             "Lock": ds.Lock, "Event": ds.Event, "TPE": fut["thread"].ThreadPoolExecutor, "Future": fut["_base"].Future}
+    # (1) the explicit table (includes the datetime rebinding, which is done nowhere else: replacing the datetime class in a
+    #     module that uses it for isinstance checks would change behaviour)
     for rel, names in REBIND.items():
         m = mods[rel]
         for attr, key in names.items():
@@ -250,6 +296,23 @@ def install(check_audit=True):
                 raise InstallError(f"{SDK}.{rel} has no attribute {attr} (SDK layout changed; update REBIND)")
             _orig[(rel, attr)] = getattr(m, attr)
             setattr(m, attr, shim[key])
+    # (2) generic pass: any module attribute that IS a real primitive / clock function / executor class
+    gmap = _generic_map(fut)
+    for rel, m in mods.items():
+        for attr, val in list(vars(m).items()):
+            if attr.startswith("__"):
+                continue
+            rep = gmap.get(id(val))
+            if rep is not None and (rel, attr) not in _HARMLESS:
+                _orig.setdefault((rel, attr), val)
+                setattr(m, attr, rep)
+    if check_audit:
+        probs = audit(mods, _shim_values(fut))
+        if probs:
+            # undo: a half-shimmed SDK must not be used
+            for (rel, attr), v in _orig.items():
+                setattr(mods[rel], attr, v)
+            raise InstallError("shim audit failed: " + "; ".join(probs))
     logging.disable(logging.CRITICAL)
     _installed = True
     return mods
@@ -260,6 +323,6 @@ def uninstall():
     if not _installed:
         return
     for (rel, attr), v in _orig.items():
-        setattr(sys.modules[f"{SDK}.{rel}"], attr, v)
+        setattr(sys.modules[f"{SDK}.{rel}" if rel else SDK], attr, v)
     logging.disable(logging.NOTSET)
     _installed = False
